@@ -157,11 +157,14 @@ type store struct {
 	faults []bool
 	trace  []string
 	busy   map[int]bool // key -> a callback for it is executing (serialisation monitor)
+	bad    map[int]bool // keys already reported incoherent in this group (later sightings are consequences)
 	hits   map[string]string
 	slow   bool // stress: widen the window inside callbacks
 }
 
-func newStore() *store { return &store{m: map[int]int{}, busy: map[int]bool{}, hits: map[string]string{}} }
+func newStore() *store {
+	return &store{m: map[int]int{}, busy: map[int]bool{}, bad: map[int]bool{}, hits: map[string]string{}}
+}
 
 func (s *store) hit(key, what string) {
 	if _, ok := s.hits[key]; !ok {
@@ -225,7 +228,8 @@ func (s *store) staleCheck(cb string, k int, e interface{}) {
 		return
 	}
 	cur, ok := s.m[k]
-	if ev, isInt := e.(int); !isInt || !ok || ev != cur {
+	if ev, isInt := e.(int); (!isInt || !ok || ev != cur) && !s.bad[k] {
+		s.bad[k] = true
 		s.hit("C15:"+cb+":stale-item-handed-to-callback", fmt.Sprintf("%s for key %d received existing item %v, the store holds %v (present=%v)", cb, k, e, cur, ok))
 	}
 }
@@ -409,7 +413,8 @@ func (gr *group) checkCoherent(site string) {
 		st.mu.Lock()
 		cur, present := st.m[k]
 		for j, w := range where {
-			if v, ok := vals[j].(int); !ok || !present || v != cur {
+			if v, ok := vals[j].(int); (!ok || !present || v != cur) && !st.bad[k] {
+				st.bad[k] = true
 				st.hit("C15:"+site+":cache-differs-from-store", fmt.Sprintf("after %s: worker %d caches key %d = %v, the store holds %v (present=%v)", site, w, k, vals[j], cur, present))
 			}
 			if h, seen := gr.home[k]; seen && h != w {
@@ -522,7 +527,7 @@ func parseFaults(s string) ([]bool, bool) {
 		return nil, true
 	}
 	if len(s) > 8 || s == "" {
-		return nil, s == "" && false
+		return nil, false
 	}
 	var out []bool
 	for _, ch := range s {
@@ -726,8 +731,8 @@ func enumCases() []corr.Case {
 	faults := []string{"-", "1", "01", "11", "001", "011", "101", "111"}
 	setups := map[string][]string{
 		"absent":        nil,
-		"stored":        {"utr 1 5 -"},            // in the store, not cached
-		"stored+cached": {"add 1 5 -"},            // in the store and cached
+		"stored":        {"utr 1 5 -"},              // in the store, not cached
+		"stored+cached": {"add 1 5 -"},              // in the store and cached
 		"cached-other":  {"add 2 7 -", "add 3 8 -"}, // other keys cached (LRU pressure), key 1 absent
 	}
 	var names []string
